@@ -564,13 +564,27 @@ func c11(r *Report) {
 					other = b.X
 					enough = (b.Op == token.GTR && !ce.Taken) || (b.Op == token.LEQ && ce.Taken)
 				}
+				if k, isK := constInt(other); isK && other != nil {
+					// a comparison with a constant, in any form: the edge is taken with 5 bytes
+					// buffered (1 flag byte + 4 length bytes) and not with 4
+					holds := func(n int64) bool {
+						if isLen(b.X) {
+							return cmpHolds(b.Op, n, k) == ce.Taken
+						}
+						return cmpHolds(b.Op, k, n) == ce.Taken
+					}
+					switch b.Op {
+					case token.LSS, token.LEQ, token.GTR, token.GEQ:
+						if holds(5) && holds(6) && !holds(4) {
+							guard = "Len() >= 5"
+						}
+					}
+					continue
+				}
 				if !enough {
 					continue
 				}
-				if k, isK := constInt(other); isK {
-					if k == 5 { // 1 flag byte + 4 length bytes (width checked above)
-						guard = "Len() >= 5"
-					}
+				if _, isK := constInt(other); isK {
 				} else {
 					guard = "Len() >= " + short(pathOf(unwrapConv(other)))
 				}
